@@ -228,6 +228,7 @@ class AbiAnalysis:
         self.report, self.stats = report, stats
         self.seen = set()
         self.args_read = set()
+        self.same_ok = set()             # (dst arg, src arg) pairs that the C routine's overlap assertions allow to be identical
         self.stored_through = set()      # pointer arguments some store address derives from
         self.ptr_args = set()            # indices of pointer parameters
         self.const_args = set()          # ... of those declared pointer-to-const
@@ -250,12 +251,13 @@ class AbiAnalysis:
         return dict(regs=regs, vec={}, fl={"C": False, "O": False, "Z": False}, df=False, stack={}, bad_sp=False,
                     af=frozenset(ARG_REGS[:self.arity]),      # argument registers that may still hold the caller's argument
                     cfp=frozenset(),                          # instructions whose carry flag may be the current CF
-                    pv={r: frozenset([i]) for i, r in enumerate(ARG_REGS[:self.arity]) if i in self.ptr_args})   # pointer-argument provenance
+                    pv={r: frozenset([i]) for i, r in enumerate(ARG_REGS[:self.arity]) if i in self.ptr_args},   # pointer-argument provenance
+                    ps=frozenset())     # stores since the address registers last changed: (arg, base, index, scale, disp, addr)
 
     @staticmethod
     def copy(st):
         return dict(regs=dict(st["regs"]), vec=dict(st["vec"]), fl=dict(st["fl"]), df=st["df"], stack=dict(st["stack"]), bad_sp=st["bad_sp"],
-                    af=st.get("af", frozenset()), cfp=st.get("cfp", frozenset()), pv=dict(st.get("pv", {})))
+                    af=st.get("af", frozenset()), cfp=st.get("cfp", frozenset()), pv=dict(st.get("pv", {})), ps=st.get("ps", frozenset()))
 
     def join(self, a, b, at):
         ch = False
@@ -264,6 +266,9 @@ class AbiAnalysis:
             ch = True
         if not b.get("cfp", frozenset()) <= a.get("cfp", frozenset()):
             a["cfp"] = a.get("cfp", frozenset()) | b["cfp"]
+            ch = True
+        if a.get("ps", frozenset()) - b.get("ps", frozenset()):
+            a["ps"] = a.get("ps", frozenset()) & b.get("ps", frozenset())       # must-information: stores seen on every path
             ch = True
         for r_, v_ in b.get("pv", {}).items():
             n_ = a.setdefault("pv", {}).get(r_, frozenset()) | v_
@@ -372,6 +377,27 @@ class AbiAnalysis:
                     self.rep(a, "store-through-const-arg:%s" % ",".join(ARG_REGS[i] for i in sorted(srcs)),
                              "this instruction stores to memory addressed only through argument %s, which the C prototype declares pointer-to-const: "
                              "the kernel writes into a source operand" % ", ".join("%d (%s)" % (i + 1, ARG_REGS[i]) for i in sorted(srcs)))
+        # ---- a source limb is loaded before the destination limb at the same index is stored, whenever the C routine allows the two
+        # operands to be the same block (kernels address all operands with one index register: same index, scale and displacement
+        # is the same limb position)
+        if mems and self.same_ok:
+            m0 = mems[0]
+            shape = (m0.get("base", {}).get("top"), m0.get("index", {}).get("top"), m0.get("scale"), m0.get("disp"))
+            roots = pv.get(shape[0], frozenset()) if shape[0] else frozenset()
+            if "load" in ins["f"] and not op.startswith("LEA") and len(roots) == 1 and shape[1]:
+                (rj,) = roots
+                for (ri, b_, i_, sc_, d_, sa_) in st.get("ps", ()):
+                    if ri != rj and i_ == shape[1] and sc_ == shape[2] and d_ == shape[3] and (ri, rj) in self.same_ok:
+                        self.rep(a, "store-before-load:%s,%s" % (ARG_REGS[ri], ARG_REGS[rj]),
+                                 "the limb at this index of argument %d (%s) is loaded after the limb at the same index of argument %d (%s) was stored "
+                                 "at +0x%x; the C routine allows these two operands to be the same block, and then the store has already "
+                                 "replaced the source limb" % (rj + 1, ARG_REGS[rj], ri + 1, ARG_REGS[ri], sa_ - self.addr))
+            if "store" in ins["f"] and len(roots) == 1 and shape[1] and not ("load" in ins["f"]):
+                (ri,) = roots
+                st["ps"] = st.get("ps", frozenset()) | {(ri, shape[0], shape[1], shape[2], shape[3], a)}
+        if defs and st.get("ps"):
+            dd = {x["top"] for x in defs}
+            st["ps"] = frozenset(t_ for t_ in st["ps"] if t_[1] not in dd and t_[2] not in dd)
         if op == "MOV64mr" and mems and ins["uses"]:
             o_ = self.sp_off(st, mems[0])
             if o_ is not None:
@@ -669,6 +695,21 @@ def prototypes():
     return out
 
 
+def c_twin_overlap_contracts():
+    """{function: {(dst arg, src arg): (kinds, text)}} from the overlap assertions of the C implementations (mpn/generic/*.c)"""
+    import r_ovcontract, compdb
+    cfg = sa.cfg_assert()
+    cfg.name = "assert-generic-all"
+    cfg.extra_files = compdb.generic_all_extra()
+    ex = sa.export(cfg)
+    out = {}
+    for path, fn in ex.functions():
+        c = r_ovcontract.contracts_of(fn)
+        if c:
+            out.setdefault(fn["name"], c)
+    return out
+
+
 def ret_bits(t):
     t = t.strip()
     if t == "void":
@@ -690,6 +731,7 @@ def run(prop="C14", tier="quick"):
     objs = assemble(files + [(fixture, "abi_fix")])
     dec = decode(objs)
     protos = prototypes()
+    twins = c_twin_overlap_contracts()
     ood_ok = {}
     for cols in spec_tsv("abi_out_of_domain.tsv", 3):
         ood_ok[(cols[0], cols[1])] = cols[2]
@@ -722,6 +764,9 @@ def run(prop="C14", tier="quick"):
             found = []
             an = AbiAnalysis(k, name, addr, arity, rb, lambda a, sig, what: found.append((a, sig, what)), res["stats"])
             if p is not None and src != fixture:
+                for (ci, cj), (kinds, _t) in twins.get(pn, {}).items():
+                    if "same" in kinds:
+                        an.same_ok.add((ci, cj))
                 for i, q in enumerate(p["params"][:6]):
                     ct = q.get("ct", "") if isinstance(q, dict) else ""
                     if "*" in ct:
